@@ -1,6 +1,6 @@
 (* Glue for the session model (C03, C04, C11). *)
 From Coq Require Import List ZArith NArith Bool.
-From XV Require Import Lib.Sx Model.Session.
+From XV Require Import Lib.Sx Model.Session Model.Recv Model.SessionRecv.
 Import ListNotations.
 Open Scope Z_scope.
 
@@ -109,26 +109,34 @@ Definition result_sx (r : result) : sx :=
 Definition persist_sx (p : persist) : sx :=
   SL [SB (p_has_session p); SS (p_sm_id p); SN (p_inbound p); SB (p_has_queue p); SS (p_bind_jid p)].
 
-(* During the traffic phase the scripted server sends <r/> after the stanzas number
-   1, 4, 7, ... of the connection: the answers the receive loop (Model/Recv.v) writes
-   carry the count before the traffic plus the stanzas received so far. *)
-Fixpoint answers_from (base : N) (k : nat) (left : nat) : list sx :=
+(* During the traffic phase the scripted server sends the stanzas number 1, 2, ... of the
+   connection (message, presence alternating) with <r/> after the stanzas number 1, 4, 7,
+   ...: that item list is given to the receive-loop model (Model/Recv.v, [crecv]) through
+   [run_full] (Model/SessionRecv.v), which starts the loop with the count the negotiation
+   left and takes the count held afterwards from the loop's Disconnected event.  The
+   answers compared are the ones that loop writes. *)
+Fixpoint traffic_items (k : nat) (left : nat) : list item :=
   match left with
   | O => []
-  | S l => (if Nat.eqb (Nat.modulo k 3) 0 then [SN (base + N.of_nat k + 1)] else []) ++ answers_from base (S k) l
+  | S l => IStanza (if Nat.even k then KMsg else KPres) (N.of_nat (S k))
+           :: (if Nat.eqb (Nat.modulo k 3) 0 then [ISmR] else []) ++ traffic_items (S k) l
   end.
+Definition tconn_of (c : conn) : tconn :=
+  {| t_dial := k_dial c; t_tls := k_tls c; t_script := k_script c;
+     t_items := traffic_items 0 (N.to_nat (k_traffic c)); t_wf := no_fault |}.
 
-Fixpoint run_conns_sx (cfg : config) (p : persist) (cs : list conn) (sbs : list (list Z)) : list sx :=
-  match cs with
+(* fifth component: how many times the session-established state was announced while the
+   connection was being set up (when Client.connect returned / when the connection was over) *)
+Fixpoint full_sx (rs : list (list out * result * persist * list cev * list action)) (sbs : list (list Z)) : list sx :=
+  match rs with
   | [] => []
-  | c :: cs' =>
-      let '(w, r, p1) := connect cfg (k_dial c) (k_tls c) p (k_script c) in
-      let p2 := match r with Ok => add_inbound p1 (k_traffic c) | _ => p1 end in
-      let ans := match r with Ok => answers_from (p_inbound p1) 0 (N.to_nat (k_traffic c)) | _ => [] end in
-      SL [SL (outs_sx w (hd [] sbs) 0); result_sx r; persist_sx p2; SL ans] :: run_conns_sx cfg p2 cs' (tl sbs)
+  | (w, r, p2, ev, tr) :: rs' =>
+      let n := Snat (count_ev EvEstablished ev) in
+      SL [SL (outs_sx w (hd [] sbs) 0); result_sx r; persist_sx p2; SL (map SN (answers tr)); SL [n; n]]
+      :: full_sx rs' (tl sbs)
   end.
 
 Definition run_typed (i : config * bool * list conn * list (list Z)) : sx :=
-  let '(cfg, sme, cs, sbs) := i in SL (run_conns_sx cfg (fresh sme) cs sbs).
+  let '(cfg, sme, cs, sbs) := i in SL (full_sx (run_full cfg (fresh sme) (map tconn_of cs)) sbs).
 
 Definition run_session : sx -> sx := with_input dec_input run_typed.
